@@ -319,6 +319,11 @@ def run(ctx):
     from ..pairs import paired_update_rule
     paired_update_rule(ctx, "R11.7", p.get_function(WB + "solvers.numba_newton_raphson"), "root_bounds", "func_at_bounds",
                        "iterates", "func_evals", "function", 4)
+    # ---- R11.8 no unsynchronised derived state on the objects this property queries (shared rule, see statecache.py)
+    from ..statecache import instance_memo_rule as _memo, positive_example as _memo_pos
+    _memo(ctx, "R11.8", [p.get_class("wavephysics.balance.source_term.SourceTerm"), p.get_class("wavephysics.balance.balance.SourceTermBalance")], "source-term classes")
+    _memo_pos(ctx, "R11.8")
+    ctx.require_count("R11.8", 2)
     ctx.require_count("R11.7", 12)
     ctx.require_count("R11.1", 1)
     ctx.require_count("R11.2", 9)
